@@ -7,14 +7,22 @@ from ..vm import Prog, expect_ok, expect_exc
 ID = "C16"
 LEVEL = "exploration"
 BUDGET = {"quick": 2500, "thorough": 750000}
-RULE = ("case = op list (assign, concat, append, resize 0/<len/==len/>len, rem, mem, print_to at a position, cmp/eq/hash "
-        "against generated others) over one heap String; operands are derived from the CURRENT abstract value: empty, equal "
-        "value, prefix, middle, suffix, overlapping repeats, absent, longer than the target, literal. After every op c_str, "
-        "len, hash (independent MurmurHash64A) are compared with a Python bytes model; ASan watches the terminator. "
-        "non-trivial = a rem of a middle/overlapping occurrence or of an absent string, or a grow-resize followed by a concat. "
-        "distinct = distinct case JSON.")
+RULE = ("case = op list (assign, concat, append, resize 0/<len/==len/>len (grow by 1-50 or up to a buffer-size boundary), rem, "
+        "mem, print_to at a position (literal, %s, %li, %%, padded, %c, %$ of a String/Int = one small write per character, two "
+        "calls chained through the returned position), cmp/eq/hash against generated others) over one String whose character "
+        "buffer is on the heap. The String is reached in a generated way ('holder'): new(String, init), new(String) then assign, "
+        "a copy of another heap String (which must keep its value), or the element of an Array / List / value of a Table "
+        "(the neighbours must keep their values). Operands are derived from the CURRENT abstract value: empty, equal value, "
+        "prefix, middle, suffix, overlapping repeats, absent, longer than the target, literal, boundary-sized fill; they are "
+        "passed as stack Strings, as separate heap Strings (which must still hold their value at the end of the case: no "
+        "sharing of buffers) or, for assign/concat/append/mem/rem, as a Type object (its C_Str text is the operand). After "
+        "every op c_str, len, hash (independent MurmurHash64A) are compared with a Python bytes model; ASan watches the "
+        "terminator. non-trivial = a rem of a middle/overlapping occurrence or of an absent string, or a grow-resize followed "
+        "by a concat, or an embedded / copied holder. distinct = distinct case JSON.")
 ASSUMPTIONS = ["Python bytes is the reference string; bytes 1..255 (NUL-free)", "aliased operands (concat(s, s)) are not generated",
-               "rem of an absent substring: the value must stay unchanged; ValueError or no exception are both accepted (C12 decides)"]
+               "rem of an absent substring: the value must stay unchanged; ValueError or no exception are both accepted (C12 decides)",
+               "print_to with an empty format is not generated (nothing is written, whether the String is cut at pos is unspecified)",
+               "a String embedded in a heap container owns a heap buffer like a heap String (String.c only refuses stack/static Strings)"]
 
 
 def prepare(tier):
@@ -39,6 +47,9 @@ _operand = st.one_of(
     # lengths at and around typical buffer sizes
     st.tuples(st.just("fill"), st.integers(33, 126), st.sampled_from([15, 16, 17, 31, 32, 33, 62, 63, 64, 65, 66, 127, 128, 129, 255, 256, 257, 511, 512, 513, 1023, 1024, 1025])),
 ).map(list)
+TYPE_NAMES = ["Int", "String", "Float", "Table", "IndexOutOfBoundsError", "C_Str"]
+HOLDERS = ["heap", "heap", "heap", "new0", "copy", "array", "list", "table"]
+PRINT_KINDS = ["lit", "s", "li", "mix", "pct", "pct", "wli", "ws", "c", "show-s", "show-s", "show-i", "chain"]
 SIZES = [15, 16, 17, 31, 32, 33, 62, 63, 64, 65, 66, 127, 128, 129, 255, 256, 257, 511, 512, 513]
 
 
@@ -49,14 +60,23 @@ def strategy_(draw):
     for _ in range(draw(st.integers(1, 40))):
         o = draw(st.sampled_from(["assign", "concat", "concat", "append", "resize", "rem", "rem", "rem", "mem", "mem", "print", "cmp", "hash"]))
         if o in ("assign", "concat", "append", "rem", "mem", "cmp"):
-            ops.append([o, draw(_operand)])
+            opd = draw(_operand)
+            # how the operand is passed: a stack String, a separate heap String (checked again at the end), a Type object
+            rep = draw(st.sampled_from(["stack"] * 6 + ["heap"] * 4 + ["type"]))
+            if rep == "type" and o != "cmp":
+                opd = ["type", draw(st.sampled_from(TYPE_NAMES))]
+                rep = "stack"
+            elif rep == "type":
+                rep = "heap"
+            ops.append([o, opd, rep])
         elif o == "resize":
-            ops.append([o, draw(st.sampled_from(["zero", "less", "same", "more"])), draw(st.integers(0, 1000))])
+            ops.append([o, draw(st.sampled_from(["zero", "less", "same", "more", "more", "big"])), draw(st.integers(0, 1000))])
         elif o == "print":
-            ops.append([o, draw(st.integers(0, 1000)), draw(st.sampled_from(["lit", "s", "li", "mix", "pct", "pct", "wli", "ws"])), draw(_operand), draw(st.integers(-1000, 1000))])
+            ops.append([o, draw(st.integers(0, 1000)), draw(st.sampled_from(PRINT_KINDS)), draw(_operand), draw(st.integers(-1000, 1000))])
         else:
             ops.append([o])
-    return {"init": init.hex(), "ops": ops}
+    return {"init": init.hex(), "ops": ops, "holder": draw(st.sampled_from(HOLDERS)),
+            "nb": [draw(gen.cbytes(6)).hex(), draw(st.sampled_from([b"", b"right", b"r" * 40])).hex()]}
 
 
 def strategy(tier):
@@ -91,6 +111,8 @@ def resolve(model, opd):
         return bytes.fromhex(opd[1])
     if k == "fill":
         return bytes([opd[1] if opd[1] != 37 else 38]) * opd[2]
+    if k == "type":
+        return opd[1].encode()
     raise HarnessBug("operand " + k)
 
 
@@ -98,24 +120,89 @@ def _sgn(x):
     return (x > 0) - (x < 0)
 
 
+_ESC = {7: b"\\a", 8: b"\\b", 12: b"\\f", 10: b"\\n", 13: b"\\r", 9: b"\\t", 11: b"\\v", 0x5c: b"\\\\", 0x27: b"\\'", 0x22: b'\\"', 0x3f: b"\\?"}
+
+
+def show_string(b):
+    """the text String's show writes: quoted, C escapes"""
+    return b'"' + b"".join(_ESC.get(c, bytes([c])) for c in b) + b'"'
+
+
 def run_case(ctx, case):
     P = Prog()
-    model = bytes.fromhex(case["init"])
-    P.add("new %%0 heap t:String s:%s" % model.hex())
-    flags = {"nt": False, "grew": False}
-    ev = set()
+    init = bytes.fromhex(case["init"])
+    holder = case.get("holder", "heap")
+    nb = [bytes.fromhex(x) for x in case.get("nb", ["6c", "72"])]
+    flags = {"nt": holder in ("copy", "array", "list", "table"), "grew": False, "fresh_grow": False}
+    ev = set(["holder=" + holder])
+    model = init
+    # ---- the String under test ends up in slot %0; what must be checked / released at the end goes to `final`
+    final = []
+    if holder == "heap":
+        P.add("new %%0 heap t:String s:%s" % init.hex())
+        final.append(("del %0", None))
+    elif holder == "new0":
+        P.add("new %0 heap t:String")
+        P.add("cstr %0", expect_ok(""))
+        P.add("len %0", expect_ok("0"))
+        P.add("assign %%0 s:%s" % init.hex(), lambda ob: None if ob.startswith("ok") else "assign failed: " + ob)
+        final.append(("del %0", None))
+    elif holder == "copy":
+        P.add("new %%1 heap t:String s:%s" % init.hex())
+        P.add("copy %0 %1", expect_ok("s" + init.hex()))
+        final.append(("cstr %1", expect_ok(init.hex())))       # the source of the copy never changes
+        final.append(("del %1", None))
+        final.append(("del %0", None))
+    elif holder in ("array", "list"):
+        P.add("new %%5 heap t:%s t:String s:%s s:%s s:%s" % ("Array" if holder == "array" else "List", nb[0].hex(), init.hex(), nb[1].hex()))
+        P.add("get %5 i:1 %0", expect_ok("s" + init.hex()))
+        final.append(("get %5 i:0", expect_ok("s" + nb[0].hex())))
+        final.append(("get %5 i:2", expect_ok("s" + nb[1].hex())))
+        final.append(("len %5", expect_ok("3")))
+        final.append(("del %5", None))
+    else:
+        P.add("new %%5 heap t:Table t:Int t:String i:1 s:%s i:2 s:%s i:3 s:%s" % (nb[0].hex(), init.hex(), nb[1].hex()))
+        P.add("get %5 i:2 %0", expect_ok("s" + init.hex()))
+        final.append(("get %5 i:1", expect_ok("s" + nb[0].hex())))
+        final.append(("get %5 i:3", expect_ok("s" + nb[1].hex())))
+        final.append(("len %5", expect_ok("3")))
+        final.append(("del %5", None))
+    heap_opds = []          # (slot, value): separate heap Strings used as operands; they keep their value to the end
+    nslot = [20]
 
     def check():
         P.add("cstr %0", expect_ok(model.hex()))
         P.add("len %0", expect_ok(str(len(model))))
         P.add("hash %0", expect_ok("%016x" % gen.murmur64a(model)))
 
+    def operand(op, s):
+        """-> argument text for the operand value s"""
+        rep = op[2] if len(op) > 2 else "stack"
+        if op[1][0] == "type":
+            ev.add("operand=type")
+            return "t:" + op[1][1]
+        if rep == "heap" and nslot[0] < 250:
+            k = nslot[0]
+            nslot[0] += 1
+            P.add("new %%%d heap t:String s:%s" % (k, s.hex()))
+            heap_opds.append((k, s))
+            ev.add("operand=heap")
+            return "%%%d" % k
+        return "s:" + s.hex()
+
+    def after_grow(name):
+        if flags["fresh_grow"]:
+            ev.add("after-grow-" + name)
+        flags["fresh_grow"] = False
+
     check()
     for op in case["ops"]:
         o = op[0]
         if o in ("assign", "concat", "append"):
             s = resolve(model, op[1])
-            P.add("%s %%0 s:%s" % (o, s.hex()), None if o != "assign" else (lambda ob: None if ob.startswith("ok") else "assign failed: " + ob))
+            a = operand(op, s)
+            P.add("%s %%0 %s" % (o, a), None if o != "assign" else (lambda ob: None if ob.startswith("ok") else "assign failed: " + ob))
+            after_grow(o)
             if o == "assign":
                 model = s
                 flags["grew"] = False
@@ -132,22 +219,27 @@ def run_case(ctx, case):
                 k = op[2] * n // 1001
             elif op[1] == "same":
                 k = n
+            elif op[1] == "big":
+                k = n + SIZES[op[2] % len(SIZES)]
+                flags["grew"] = flags["fresh_grow"] = True
             else:
                 k = n + 1 + op[2] % 50
-                flags["grew"] = True
+                flags["grew"] = flags["fresh_grow"] = True
             P.add("resize %%0 %d" % k)
             if k < n:
                 model = model[:k]
             ev.add("resize-" + op[1])
         elif o == "rem":
             s = resolve(model, op[1])
+            a = operand(op, s)
             idx = model.find(s)
+            after_grow("rem")
             if idx < 0:
-                P.add("rem %%0 s:%s" % s.hex(), lambda ob: None if (ob == "ok" or ob == "ok " or ob == "exc ValueError") else "rem of absent substring: " + ob)
+                P.add("rem %%0 %s" % a, lambda ob: None if (ob == "ok" or ob == "ok " or ob == "exc ValueError") else "rem of absent substring: " + ob)
                 flags["nt"] = True
                 ev.add("rem-absent")
             else:
-                P.add("rem %%0 s:%s" % s.hex())
+                P.add("rem %%0 %s" % a)
                 if s and 0 < idx and idx + len(s) < len(model):
                     flags["nt"] = True
                     ev.add("rem-middle")
@@ -159,13 +251,15 @@ def run_case(ctx, case):
                 model = model[:idx] + model[idx + len(s):]
         elif o == "mem":
             s = resolve(model, op[1])
-            P.add("mem %%0 s:%s" % s.hex(), expect_ok("1" if s in model else "0"))
+            P.add("mem %%0 %s" % operand(op, s), expect_ok("1" if s in model else "0"))
+            after_grow("mem")
             ev.add("mem-" + op[1][0])
             continue
         elif o == "cmp":
             s = resolve(model, op[1])
             c = _sgn((model > s) - (model < s))
-            P.add("cmp %%0 s:%s" % s.hex(), expect_ok("c=%d p=%d%d%d%d%d%d" % (c, c == 0, c != 0, c < 0, c > 0, c <= 0, c >= 0)))
+            P.add("cmp %%0 %s" % operand(op, s), expect_ok("c=%d p=%d%d%d%d%d%d" % (c, c == 0, c != 0, c < 0, c > 0, c <= 0, c >= 0)))
+            after_grow("cmp")
             ev.add("cmp")
             continue
         elif o == "hash":
@@ -173,6 +267,7 @@ def run_case(ctx, case):
         elif o == "print":
             pos = op[1] * (len(model) + 1) // 1001
             s = resolve(model, op[3])
+            second = None
             if op[2] == "lit":
                 text = s.replace(b"%", b"")
                 fmt, args = text, []
@@ -190,17 +285,42 @@ def run_case(ctx, case):
                 w = SIZES[abs(op[4]) % len(SIZES)]
                 s = s[:w]
                 fmt, args, text = b"[%%%ds]" % w, ["s:" + s.hex()], b"[" + b" " * (w - len(s)) + s + b"]"
+            elif op[2] == "c":
+                ch = abs(op[4]) % 255 + 1
+                fmt, args, text = b"%c%c", ["i:%d" % ch, "i:%d" % (ch - 256)], bytes([ch, ch])       # the char code, also as a negative (signed char) value
+            elif op[2] == "show-s":
+                s = s[:300]
+                fmt, args, text = b"%$", ["s:" + s.hex()], show_string(s)        # String's show: one print_to per character
+            elif op[2] == "show-i":
+                fmt, args, text = b"=%$=", ["i:%d" % (op[4] * 1000003)], b"=%d=" % (op[4] * 1000003)
+            elif op[2] == "chain":
+                # pos = print_to(s, pos, ...); pos = print_to(s, pos, ...): the returned position is the next start
+                fmt, args, text = b"%s", ["s:" + s.hex()], s
+                second = (b"+%li", ["i:%d" % op[4]], b"+%d" % op[4])
             else:
                 fmt, args, text = b"a%sb%lic", ["s:" + s.hex(), "i:%d" % op[4]], b"a" + s + b"b%dc" % op[4]
             if not fmt:
                 continue
+            after_grow("print")
             want = model[:pos] + text
             P.add("print %%0 %d %s %s" % (pos, fmt.hex(), " ".join(args)),
                   expect_ok("ret=%d s=%s" % (len(want), want.hex())))
             model = want
+            if second:
+                want = model + second[2]
+                P.add("print %%0 %d %s %s" % (len(model), second[0].hex(), " ".join(second[1])),
+                      expect_ok("ret=%d s=%s" % (len(want), want.hex())))
+                model = want
             ev.add("print-" + op[2])
         check()
-    P.add("del %0")
+    for k, v in heap_opds:
+        P.add("cstr %%%d" % k, lambda ob, v=v, k=k: None if ob.rstrip() == ("ok " + v.hex()).rstrip() else
+              "the heap String that was passed as an operand no longer holds its value: %s, expected %s" % (ob[:120], v.hex()[:120]))
+        P.add("del %%%d" % k)
+    if holder in ("array", "list", "table"):
+        P.add("zero %0")            # the element pointer dies with its container
+    for line, chk in final:
+        P.add(line, chk)
     fail, obs = P.run(ctx.executor("ex_vm"))
     return Result(fail, flags["nt"], sorted(ev), None)
 
